@@ -60,6 +60,11 @@ Bad(c) ==
     [] c.c = "share" ->
          IF \E i, j \in 1..Len(c.ords) : c.ords[i][2] # c.ords[j][2] THEN "share-more-than-one-market"
          ELSE IF Len(c.ords) > 1 THEN "share-order-count" ELSE ""
+    [] c.c = "pop" ->
+         \* a group of FCN agents built by the runner: ags[i] = <<time window, mean reversion time>>, cfgtr the configured
+         \* mean reversion time (-1: none, the documented default is the agent's own time window)
+         IF \E i \in 1..Len(c.ags) : c.ags[i][2] # (IF c.cfgtr >= 0 THEN c.cfgtr ELSE c.ags[i][1])
+         THEN "fcn-mean-reversion-time-of-a-group" ELSE ""
     [] OTHER -> "unknown-case"
 
 Verdict(h) ==
